@@ -175,6 +175,61 @@ def strict_extern_groups(rng):
             members.append(c)
             all_dims.append(["extern_enums", "strict-extern-enum"] + (["normalization"] if vo.get("normalization") else []))
         out.append((members, all_dims))
+    # several external enums, listed in an order that is neither sorted nor the schema's
+    s = Schema()
+    enums3 = ["Zeta", "alpha", "Mid"]
+    for en in enums3:
+        s.add(en, {"kind": "enum", "values": ["one", "TWO"]})
+    s.add("Query", {"kind": "object", "implements": [], "fields": [{"name": "f%d" % k, "type": T(en), "args": [["v", T(en)]], "deprecated": None} for k, en in enumerate(enums3)]})
+    doc = {"operations": [{"kind": "query", "name": "ThreeEnums", "vars": [{"name": "v%d" % k, "type": T(en), "default": None} for k, en in enumerate(enums3)],
+                           "sel": [["field", None, "f%d" % k, "(v: $v%d)" % k, None] for k in range(3)]}], "fragments": []}
+    vecs = []
+    for k, (a, b, c3) in enumerate([("one", "TWO", "one"), ("nope", "one", "one"), ("one", "nope", "one"), ("one", "one", "nope"), (None, None, None)]):
+        vecs.append({"id": "ThreeEnums.p%d" % k, "kind": "resp", "target": "ThreeEnums", "input": {"f0": a, "f1": b, "f2": c3}, "expect": {}, "label": "strict-extern"})
+        vecs.append({"id": "ThreeEnums.a%d" % k, "kind": "vars", "target": "ThreeEnums", "input": {"v0": a, "v1": b, "v2": c3}, "expect": {}})
+    members, all_dims = [], []
+    for vi, (order, vo) in enumerate([(["Zeta", "alpha", "Mid"], {}), (["alpha", "Zeta", "Mid"], {"normalization": "rust"}), (["Mid", "Zeta", "alpha"], {"visibility": "pub(crate)"}), (["Zeta", "Mid", "alpha"], {"response_derives": "Serialize,Debug,PartialEq,Clone"})]):
+        opts = {"extern_enums": order, "other_variant": False, "skip_none": False}
+        opts.update(vo)
+        c = C.make_case("x9v%d" % vi, s, doc, rng, options=opts, fmt="sdl")
+        c["support"]["extern_enums_strict"] = True
+        if members:
+            c["schema_text"], c["schema_ext"], c["schema_format"] = members[0]["schema_text"], members[0]["schema_ext"], members[0]["schema_format"]
+        c["vectors"] = vecs
+        members.append(c)
+        all_dims.append(["extern_enums", "strict-extern-enum", "extern-enum-order"])
+    out.append((members, all_dims))
+    # `Default` among the response derives (possible where every field type has a default: objects and scalars only): what the
+    # types accept must not change - a missing non-null sibling of a nullable ID stays an error
+    s = Schema()
+    s.add("Item", {"kind": "object", "implements": [], "fields": [{"name": "id", "type": T("ID"), "args": [], "deprecated": None}, {"name": "name", "type": NN(T("String")), "args": [], "deprecated": None},
+                                                                   {"name": "count", "type": NN(T("Int")), "args": [], "deprecated": None}, {"name": "tags", "type": NN(("list", NN(T("String")))), "args": [], "deprecated": None},
+                                                                   {"name": "parent", "type": T("Item"), "args": [], "deprecated": None}]})
+    s.add("Query", {"kind": "object", "implements": [], "fields": [{"name": "item", "type": T("Item"), "args": [], "deprecated": None}, {"name": "plain", "type": NN(T("Int")), "args": [], "deprecated": None}]})
+    doc = {"operations": [{"kind": "query", "name": "WithDefault", "vars": [], "sel": [["field", None, "plain", None, None], ["field", None, "item", None, [["field", None, "id", None, None], ["field", None, "name", None, None],
+                           ["field", None, "count", None, None], ["field", None, "tags", None, None], ["field", None, "parent", None, [["field", None, "id", None, None], ["field", None, "name", None, None]]]]]]}], "fragments": []}
+    full = {"plain": 1, "item": {"id": "i", "name": "n", "count": 2, "tags": ["t"], "parent": {"id": 7, "name": "p"}}}
+    vecs = [{"id": "WithDefault.full", "kind": "resp", "target": "WithDefault", "input": full, "expect": {}, "label": "conforming"}]
+    import copy as _copy
+    for k, path in enumerate([("plain",), ("item", "name"), ("item", "count"), ("item", "tags"), ("item", "parent", "name"), ("item", "id"), ("item", "parent", "id")]):
+        p2 = _copy.deepcopy(full)
+        t = p2
+        for key in path[:-1]:
+            t = t[key]
+        del t[path[-1]]
+        vecs.append({"id": "WithDefault.del%d" % k, "kind": "resp", "target": "WithDefault", "input": p2, "expect": {}, "label": "del@" + "/".join(path)})
+    members, all_dims = [], []
+    for vi, rd in enumerate(["Serialize,Debug,PartialEq", "Serialize,Debug,PartialEq,Default", "Default,Serialize,Debug,PartialEq,Clone", "Serialize, Debug, PartialEq, Default"]):
+        opts = {"other_variant": False, "skip_none": False, "response_derives": rd}
+        if vi == 2:
+            opts["normalization"] = "rust"
+        c = C.make_case("x10v%d" % vi, s, doc, rng, options=opts, fmt="sdl")
+        if members:
+            c["schema_text"], c["schema_ext"], c["schema_format"] = members[0]["schema_text"], members[0]["schema_ext"], members[0]["schema_format"]
+        c["vectors"] = vecs
+        members.append(c)
+        all_dims.append(["derives", "default-derive"])
+    out.append((members, all_dims))
     return out
 
 
